@@ -1,5 +1,7 @@
 import Sekai.Model.Custody
 import SekaiProofs.Lemmas.Custody
+import Sekai.Gen.App
+import Sekai.Model.App
 /-! # C17 — Custody: guarded funds leave only with the required approvals
 
 Theorems about `Sekai.Custody` (lean/Sekai/Model/Custody.lean), the executable model of `x/custody` and of
@@ -764,5 +766,10 @@ theorem status_never_created (s0 : State) (a : Addr) (h0 : s0.status a = none) (
       show s3.status a = none
       rw [execAllSame _ _ _ hexec]
       exact anteAllNone t.msgs s0 s1 h0 hante
+
+/-! ### Application wiring (table `Gen.App`) -/
+
+/-- the custody decorator is in the ante chain exactly once -/
+theorem ante_custody_wiring : Sekai.App.once Sekai.Gen.App.anteChain "NewCustodyDecorator" = true := by decide +kernel
 
 end Sekai.Props.C17
